@@ -136,13 +136,13 @@ xresp0_pipe_init(void *arg, nni_pipe *npipe, void *s)
 	nni_aio_init(&p->aio_getq, xresp0_getq_cb, p);
 	nni_aio_init(&p->aio_send, xresp0_send_cb, p);
 
-	if ((rv = nni_msgq_init(&p->sendq, 2)) != 0) {
-		xresp0_pipe_fini(p);
-		return (rv);
-	}
-
 	p->npipe = npipe;
 	p->psock = s;
+
+	if ((rv = nni_msgq_init(&p->sendq, 2)) != 0) {
+		// The pipe is closed, stopped and finalized by our caller.
+		return (rv);
+	}
 	return (0);
 }
 
